@@ -572,7 +572,7 @@ def run(ctx):
                     "differential Calculator runs, not modelled"]
     ctx.partial += ["static fit / key parsing / column map / volume guard theorems are tied to the code by the "
                     "differential Calculator runs (and the guard shard), not by a translated model",
-                    "invariance of QHA's own thermodynamics (F, P, C_V, v2p) under q-point/mode order is measured only"]
+                    "the harmonic free energy F_ph of the spectrum and its V- and T-derivatives (sources of P, C_V, dP/dT) are PROVED presentation independent (free_energy_*, pressure_and_heat_capacity_sources_*); that qha 1.1.3 computes these quantities (numerical derivatives on its grids, v2p) in a presentation-independent way is measured only"]
     shutil.copy(PROPS / "Prop_C13.v", rd / "Prop_C13.v")
     ctx.prove(rd / "Prop_C13.v", "Prop_C13.v (presentation-invariance theorems over R)", "theorem-file", timeout=1800)
 
